@@ -21,6 +21,7 @@ from .values import (
     JSArrayBuffer,
     to_boolean,
     to_number,
+    to_integer,
     to_string,
     js_pow,
     js_typeof,
@@ -39,6 +40,8 @@ from .regex import RegExpError, RegexStackOverflow, RegexTimeoutError
 
 def js_round(x: float, ndigits: int = 0) -> float:
     """Round using JavaScript-style 'round half away from zero' instead of Python's 'round half to even'."""
+    if x != x or math.isinf(x):
+        return x  # NaN and the infinities round to themselves
     if ndigits == 0:
         if x >= 0:
             return math.floor(x + 0.5)
@@ -46,10 +49,19 @@ def js_round(x: float, ndigits: int = 0) -> float:
             return math.ceil(x - 0.5)
     else:
         multiplier = 10**ndigits
+        if math.isinf(x * multiplier):
+            return x  # already an integer far beyond 2**53
         if x >= 0:
             return math.floor(x * multiplier + 0.5) / multiplier
         else:
             return math.ceil(x * multiplier - 0.5) / multiplier
+
+
+def _scale_mantissa(abs_n: float, exp: int) -> float:
+    """abs_n / 10**exp; for subnormal numbers 10**exp underflows to zero."""
+    if exp < -300:
+        return (abs_n * 1e300) / (10 ** (exp + 300))
+    return abs_n / (10**exp)
 
 
 class _PendingThrow(Exception):
@@ -1299,9 +1311,9 @@ class VM:
             return acc
 
         def splice_fn(*args):
-            start = int(to_number(args[0])) if args else 0
+            start = to_integer(args[0]) if args else 0
             delete_count = (
-                int(to_number(args[1])) if len(args) > 1 else len(arr._elements) - start
+                to_integer(args[1]) if len(args) > 1 else len(arr._elements) - start
             )
             items = list(args[2:]) if len(args) > 2 else []
 
@@ -1334,7 +1346,7 @@ class VM:
 
         def indexOf_fn(*args):
             search = args[0] if args else UNDEFINED
-            start = int(to_number(args[1])) if len(args) > 1 else 0
+            start = to_integer(args[1]) if len(args) > 1 else 0
             if start < 0:
                 start = max(0, len(arr._elements) + start)
             for i in range(start, len(arr._elements)):
@@ -1344,7 +1356,7 @@ class VM:
 
         def lastIndexOf_fn(*args):
             search = args[0] if args else UNDEFINED
-            start = int(to_number(args[1])) if len(args) > 1 else len(arr._elements) - 1
+            start = to_integer(args[1], len(arr._elements) - 1) if len(args) > 1 else len(arr._elements) - 1
             if start < 0:
                 start = len(arr._elements) + start
             for i in range(min(start, len(arr._elements) - 1), -1, -1):
@@ -1403,8 +1415,8 @@ class VM:
             return result
 
         def slice_fn(*args):
-            start = int(to_number(args[0])) if args else 0
-            end = int(to_number(args[1])) if len(args) > 1 else len(arr._elements)
+            start = to_integer(args[0]) if args else 0
+            end = to_integer(args[1], len(arr._elements)) if len(args) > 1 else len(arr._elements)
             if start < 0:
                 start = max(0, len(arr._elements) + start)
             if end < 0:
@@ -1419,7 +1431,7 @@ class VM:
 
         def includes_fn(*args):
             search = args[0] if args else UNDEFINED
-            start = int(to_number(args[1])) if len(args) > 1 else 0
+            start = to_integer(args[1]) if len(args) > 1 else 0
             if start < 0:
                 start = max(0, len(arr._elements) + start)
             for i in range(start, len(arr._elements)):
@@ -1455,8 +1467,10 @@ class VM:
                 ):
                     result = vm._call_callback(comparator, [a, b])
                     # Convert to integer for cmp_to_key
+                    # Only the sign matters (a fraction such as 0.5 is positive,
+                    # NaN counts as equal)
                     num = to_number(result) if result is not UNDEFINED else 0
-                    return int(num) if isinstance(num, (int, float)) else 0
+                    return 1 if num > 0 else -1 if num < 0 else 0
                 return default_compare(a, b)
 
             # Sort using Python's sort with custom key
@@ -1683,8 +1697,8 @@ class VM:
             return separator.join(str(arr.get_index(i)) for i in range(arr.length))
 
         def subarray_fn(*args):
-            begin = int(to_number(args[0])) if len(args) > 0 else 0
-            end = int(to_number(args[1])) if len(args) > 1 else arr.length
+            begin = to_integer(args[0]) if len(args) > 0 else 0
+            end = to_integer(args[1], arr.length) if len(args) > 1 else arr.length
 
             # Handle negative indices
             if begin < 0:
@@ -1709,7 +1723,7 @@ class VM:
         def set_fn(*args):
             # TypedArray.set(array, offset)
             source = args[0] if args else UNDEFINED
-            offset = int(to_number(args[1])) if len(args) > 1 else 0
+            offset = to_integer(args[1]) if len(args) > 1 else 0
 
             if isinstance(source, (JSArray, JSTypedArray)):
                 for i in range(source.length):
@@ -1728,9 +1742,11 @@ class VM:
         """Create a bound number method."""
 
         def toFixed(*args):
-            digits = int(to_number(args[0])) if args else 0
+            digits = to_integer(args[0]) if args else 0
             if digits < 0 or digits > 100:
                 raise JSRangeError("toFixed() digits out of range")
+            if n != n or math.isinf(n) or abs(n) >= 1e21:
+                return to_string(n)
             # Use JavaScript-style rounding (round half away from zero)
             rounded = js_round(n, digits)
             result = f"{rounded:.{digits}f}"
@@ -1741,9 +1757,11 @@ class VM:
             return result
 
         def toString(*args):
-            radix = int(to_number(args[0])) if args else 10
+            radix = to_integer(args[0], 10) if args else 10
             if radix < 2 or radix > 36:
                 raise JSRangeError("toString() radix must be between 2 and 36")
+            if n != n or math.isinf(n):
+                return to_string(n)
             if radix == 10:
                 if isinstance(n, float) and n.is_integer():
                     return str(int(n))
@@ -1757,7 +1775,7 @@ class VM:
             import math
 
             if args and args[0] is not UNDEFINED:
-                digits = int(to_number(args[0]))
+                digits = to_integer(args[0])
             else:
                 digits = None
 
@@ -1774,7 +1792,7 @@ class VM:
                 sign = "-" if n < 0 else ""
                 abs_n = abs(n)
                 exp = int(math.floor(math.log10(abs_n)))
-                mantissa = abs_n / (10**exp)
+                mantissa = _scale_mantissa(abs_n, exp)
                 # Format mantissa without trailing zeros
                 mantissa_str = f"{mantissa:.15g}".rstrip("0").rstrip(".")
                 exp_sign = "+" if exp >= 0 else ""
@@ -1788,7 +1806,7 @@ class VM:
                 sign = "-" if n < 0 else ""
                 abs_n = abs(n)
                 exp = int(math.floor(math.log10(abs_n)))
-                mantissa = abs_n / (10**exp)
+                mantissa = _scale_mantissa(abs_n, exp)
                 # Round mantissa to specified digits using JS-style rounding
                 rounded = js_round(mantissa, digits)
                 if rounded >= 10:
@@ -1809,7 +1827,7 @@ class VM:
                     return str(int(n))
                 return str(n)
 
-            precision = int(to_number(args[0]))
+            precision = to_integer(args[0])
             if precision < 1 or precision > 100:
                 raise JSRangeError("toPrecision() precision out of range")
 
@@ -1830,7 +1848,7 @@ class VM:
             # Decide if we use exponential or fixed notation
             if exp < -6 or exp >= precision:
                 # Use exponential notation
-                mantissa = abs_n / (10**exp)
+                mantissa = _scale_mantissa(abs_n, exp)
                 rounded = js_round(mantissa, precision - 1)
                 if rounded >= 10:
                     rounded /= 10
@@ -1884,33 +1902,33 @@ class VM:
         """Create a bound string method."""
 
         def charAt(*args):
-            idx = int(to_number(args[0])) if args else 0
+            idx = to_integer(args[0]) if args else 0
             if 0 <= idx < len(s):
                 return s[idx]
             return ""
 
         def charCodeAt(*args):
-            idx = int(to_number(args[0])) if args else 0
+            idx = to_integer(args[0]) if args else 0
             if 0 <= idx < len(s):
                 return ord(s[idx])
             return float("nan")
 
         def indexOf(*args):
             search = to_string(args[0]) if args else ""
-            start = int(to_number(args[1])) if len(args) > 1 else 0
+            start = to_integer(args[1]) if len(args) > 1 else 0
             if start < 0:
                 start = 0
             return s.find(search, start)
 
         def lastIndexOf(*args):
             search = to_string(args[0]) if args else ""
-            end = int(to_number(args[1])) if len(args) > 1 else len(s)
+            end = to_integer(args[1], len(s)) if len(args) > 1 else len(s)
             # Python's rfind with end position
             return s.rfind(search, 0, end + len(search))
 
         def substring(*args):
-            start = int(to_number(args[0])) if args else 0
-            end = int(to_number(args[1])) if len(args) > 1 else len(s)
+            start = to_integer(args[0]) if args else 0
+            end = to_integer(args[1], len(s)) if len(args) > 1 else len(s)
             # Clamp and swap if needed
             if start < 0:
                 start = 0
@@ -1921,8 +1939,8 @@ class VM:
             return s[start:end]
 
         def slice_fn(*args):
-            start = int(to_number(args[0])) if args else 0
-            end = int(to_number(args[1])) if len(args) > 1 else len(s)
+            start = to_integer(args[0]) if args else 0
+            end = to_integer(args[1], len(s)) if len(args) > 1 else len(s)
             # Handle negative indices
             if start < 0:
                 start = max(0, len(s) + start)
@@ -1932,7 +1950,7 @@ class VM:
 
         def split(*args):
             sep = args[0] if args else UNDEFINED
-            limit = int(to_number(args[1])) if len(args) > 1 else -1
+            limit = to_integer(args[1], -1) if len(args) > 1 else -1
 
             if sep is UNDEFINED:
                 parts = [s]
@@ -2007,24 +2025,26 @@ class VM:
             return result
 
         def repeat(*args):
-            count = int(to_number(args[0])) if args else 0
-            if count < 0:
+            count = to_integer(args[0]) if args else 0
+            if count < 0 or count >= 2**53:
                 raise JSRangeError("Invalid count value")
+            if len(s) * count > 2**28:
+                raise JSRangeError("Invalid string length")
             return s * count
 
         def startsWith(*args):
             search = to_string(args[0]) if args else ""
-            pos = int(to_number(args[1])) if len(args) > 1 else 0
+            pos = to_integer(args[1]) if len(args) > 1 else 0
             return s[pos:].startswith(search)
 
         def endsWith(*args):
             search = to_string(args[0]) if args else ""
-            length = int(to_number(args[1])) if len(args) > 1 else len(s)
+            length = to_integer(args[1], len(s)) if len(args) > 1 else len(s)
             return s[:length].endswith(search)
 
         def includes(*args):
             search = to_string(args[0]) if args else ""
-            pos = int(to_number(args[1])) if len(args) > 1 else 0
+            pos = to_integer(args[1]) if len(args) > 1 else 0
             return search in s[pos:]
 
         def replace(*args):
@@ -2286,8 +2306,16 @@ class VM:
         if isinstance(obj, JSArray):
             # Special handling for length property
             if key_str == "length":
-                new_len = int(to_number(value))
-                obj.length = new_len
+                new_len = to_number(value)
+                if (
+                    new_len != new_len
+                    or math.isinf(new_len)
+                    or new_len < 0
+                    or new_len != int(new_len)
+                    or new_len > 2**32 - 1
+                ):
+                    raise JSRangeError("Invalid array length")
+                obj.length = int(new_len)
                 return
             # Strict array mode: reject non-integer indices
             # Valid indices are integer strings in range [0, 2^32-2]
